@@ -953,4 +953,41 @@ theorem memo_correct (U : Universe) (m x : Nat) (W : World) (S : PStore) (rq : R
     · refine ⟨?_, fun _ _ _ _ _ h => absurd h hs⟩
       simp only [evalStep, ha, hs, not_false_eq_true, if_true]; exact hS
 
+/-! ## Histories -/
+
+/-- a step of a history: a version of the code and a request evaluated against the store left by the steps before -/
+structure HStep where
+  world : World
+  rq : Request
+
+def HStep.ok (U : Universe) (x : Nat) (s : HStep) : Prop :=
+  U.world s.world ∧ s.world.extVersion = x ∧ U.request s.rq
+
+/-- the store after a history (any sequence of versions of the code, requests, stage lists) -/
+def runHistory (m : Nat) : PStore → List HStep → PStore
+  | S, [] => S
+  | S, s :: ss => runHistory m (evalStep m s.world S s.rq).store ss
+
+theorem sound_empty (U : Universe) (m x : Nat) (noop : Bool) : Sound U m x { noop := noop } := by
+  intro k v h; simp [sgGet] at h
+
+theorem sound_history (U : Universe) (m x : Nat) : ∀ (hist : List HStep) (S : PStore), Sound U m x S →
+    (∀ s ∈ hist, s.ok U x) → Sound U m x (runHistory m S hist)
+  | [], _, hS, _ => hS
+  | s :: ss, S, hS, hok => by
+    obtain ⟨h1, h2, h3⟩ := hok s mem_cons_self
+    exact sound_history U m x ss _ (memo_correct U m x s.world S s.rq h1 h2 h3 hS).1
+      (fun t ht => hok t (mem_cons_of_mem _ ht))
+
+/-- **`history_correct` (C01).** After *any* history of evaluations — of older versions of the code, with other
+variable values and arguments, restricted to any stages, failed or not — starting from an empty store, an evaluation
+of the current version returns exactly what plain execution of the current version returns. -/
+theorem history_correct (U : Universe) (m x : Nat) (noop : Bool) (hist : List HStep) (hok : ∀ s ∈ hist, s.ok U x)
+    (W : World) (rq : Request) (hW : U.world W) (hx : W.extVersion = x) (hrq : U.request rq)
+    (fn : Fn) (env : Env) (fis : FIS) (paths : List (String × Sg))
+    (ha : analysisPhase m W (runHistory m { noop := noop } hist) rq = .ok (fn, env, fis, paths))
+    (hs : Stage.eval ∈ rq.stages) (p : PSt) :
+    (evalStep m W (runHistory m { noop := noop } hist) rq).value = ((plainFn W W.fuel p fn env).1).map some :=
+  (memo_correct U m x W _ rq hW hx hrq (sound_history U m x hist _ (sound_empty U m x noop) hok)).2 fn env fis paths ha hs p
+
 end Dds
